@@ -576,7 +576,18 @@ def E_bond_cutoff(repo, clause):
     want_cond = ("or", ("in", P("e1"), nm), ("in", P("e2"), nm))
     base = ("add", rad("e1"), rad("e2"))
     with_allow = ("add", ("const", 0.45), rad("e1"), rad("e2"))
-    ok = len(dl) == 2 and dl[0][0] == (want_cond,) and dl[0][1] == ("ret", with_allow) and dl[1][1] == ("ret", base)
+    ok = len(dl) == 2
+    seen_pol = set()
+    for conds, res in dl:
+        if want_cond in conds:
+            ok = ok and res == ("ret", with_allow)
+            seen_pol.add(True)
+        elif ("not", want_cond) in conds or not conds:
+            ok = ok and res == ("ret", base)
+            seen_pol.add(False)
+        else:
+            ok = False
+    ok = ok and seen_pol == {True, False}
     obs.append(Ob("E7", clause, mb, mb.node, ok,
                   "cutoff = r(el1) + r(el2) + 0.45 when el1 OR el2 is a non-metal, else r(el1) + r(el2) (decision list: %s)" % (str(dl)[:200] if not ok else "2 leaves as required"),
                   construct="def max_bond_length", slot="cutoff-formula"))
